@@ -7,6 +7,8 @@ pub struct CommodityStore { _p: usize }
 pub struct AccountStore { _p: usize }
 pub struct ReportContext { pub commodities: CommodityStore, pub accounts: AccountStore }
 
+/// the number of decimal places of a `format` sample (PrettyDecimal::scale)
+pub uninterp spec fn fmt_scale<T>(t: T) -> u32;
 impl CommodityStore {
     pub uninterp spec fn dp(&self, c: Commodity) -> Option<u32>;
     // name resolution as a function of the store state and the written name
@@ -61,10 +63,14 @@ impl CommodityStore {
             forall|n: Seq<char>| old(self).is_alias(n) ==> final(self).is_alias(n),
             forall|n: Seq<char>| old(self).is_canonical(n) ==> final(self).is_canonical(n),
             forall|h: Commodity| old(self).registered(h) ==> final(self).registered(h),
+            forall|h: Commodity| final(self).dp(h) == old(self).dp(h),   // the intern table and the format table are separate fields
     { unimplemented!() }
+    /// CommodityStore::set_format: `formatting.insert(commodity, format)`; get_decimal_point reads `formatting[c].scale()`
     #[verifier::external_body]
     pub fn set_format<T>(&mut self, commodity: Commodity, format: T)
         ensures
+            final(self).dp(commodity) == Some(fmt_scale(format)),
+            forall|h: Commodity| h != commodity ==> final(self).dp(h) == old(self).dp(h),
             forall|n: Seq<char>| final(self).resolved(n) == old(self).resolved(n),
             forall|n: Seq<char>| final(self).is_alias(n) == old(self).is_alias(n),
             forall|n: Seq<char>| final(self).is_canonical(n) == old(self).is_canonical(n),
